@@ -458,6 +458,12 @@ func (x *Evaluator) evalU(v ssa.Value, e *env, c *evalCtx) Val {
 					return x.zeroOf(v.Type())
 				}
 			}
+			// an entry of a map kept in a field of the converter, under a constant key
+			if field, ok := x.convFieldMap(v.X); ok {
+				if k, ok := constKeyOf(x.evalC(v.Index, e, c)); ok {
+					return x.symbolic(v.Type(), "field:"+keyedFieldName(field, k))
+				}
+			}
 		}
 		return OpaqueV{"maplookup"}
 	case *ssa.Index:
